@@ -35,6 +35,10 @@ class _Undefined:
         return "<jsonpath.pointer.UNDEFINED>"
 
 
+# The only spellings that denote an array index: canonical decimal integers.
+RE_CANONICAL_INT = re.compile(r"0|-?[1-9][0-9]*")
+
+
 UNDEFINED = _Undefined()
 
 
@@ -108,8 +112,10 @@ class JSONPointer:
         )[1:]
 
     def _index(self, s: str) -> Union[str, int]:
-        # Reject non-zero ints that start with a zero.
-        if len(s) > 1 and s.startswith("0"):
+        # Reject non-zero ints that start with a zero, and anything else that
+        # `int()` would accept but that does not round trip through `str()`
+        # ("+1", " 1", "1_0", non-ASCII digits). Those are property names.
+        if not RE_CANONICAL_INT.fullmatch(s):
             return s
 
         try:
